@@ -15,7 +15,9 @@ from engines import storage as S
 from engines import recplay as R
 
 PROP = 'C15'
-PREFIXES = ['', 'a', 'ab', 'a/b', 'b', 'full_runs', 'metadata_v2', 'a/full_runs', 'a/', 'a/b/']
+PREFIXES = ['', 'a', 'ab', 'a/b', 'b', 'full_runs', 'metadata_v2', 'a/full_runs', 'a/', 'a/b/', '/abs']
+# categories as services name them: class names and route-like names with a leading slash
+CATS15 = list(S.CATEGORIES) + ['/api/plan']
 FOREIGN = ['tape_recorder_recordings/fullx/full/OpA/20200101/9', 'tape_recorder_recordings/metadata-old/metadata/OpA/20200101/9',
            'tape_recorder_recordings/a/fullness/x', 'other/x', 'tape_recorder_recordingsX/full/OpA/20200101/1', 'tape_recorder_recordings/a_foreign', 'tape_recorder_recordings/abc/full/OpA/20200101/1',
            'tape_recorder_recordings', 'zzz']
@@ -60,7 +62,7 @@ def reader_check(run, world, prefix, saved, label):
     obs = world.observers
     world.observers = []
     try:
-        for cat in S.CATEGORIES:
+        for cat in CATS15:
             try:
                 ids = list(cas.iter_recording_ids(cat))
             except Exception as ex:
@@ -157,7 +159,7 @@ def _run(tape, clock):
                 run.probe('read_only_cassette_called')
             try:
                 if op == 'create':
-                    r = c['obj'].create_new_recording(tape.choice(S.CATEGORIES))
+                    r = c['obj'].create_new_recording(tape.choice(CATS15))
                     data = dict((kk, V.gen_faithful(tape, run, 1)) for kk in tape.shuffle(S.KEY_TEXTS[:8])[:tape.draw(4)])
                     md = S.gen_metadata(tape)
                     for kk, v in data.items():
@@ -211,7 +213,7 @@ def _run(tape, clock):
                         except Exception:
                             pass
                 elif op == 'list':
-                    list(c['obj'].iter_recording_ids(tape.choice(S.CATEGORIES), limit=tape.choice([None, 1, 3])))
+                    list(c['obj'].iter_recording_ids(tape.choice(CATS15), limit=tape.choice([None, 1, 3])))
                 elif op == 'close':
                     c['obj'].close()
                     c['closed'] = True
